@@ -2239,11 +2239,10 @@ class StridedInterval:
         a._bits += b.bits
 
         new_si = a.lshift(b.bits)
-        new_b = b.copy()
         # Zero-extend b
-        new_b._bits = new_si.bits
+        new_b = b.zero_extend(new_si.bits)
 
-        if new_si.is_integer:
+        if new_si.is_integer and b.lower_bound <= b.upper_bound:
             # We can be more precise!
             new_si._bits = new_b.bits
             new_si._stride = new_b.stride
